@@ -37,7 +37,19 @@ def run(exe, args, timeout=20):
 def num(v, default=0):
     if v is None:
         return default
-    s = str(v).strip().rstrip('ulUL')
+    s = str(v).strip()
+    if len(s) >= 3 and s[0] == "'" and s[-1] == "'":      # CBMC prints plain-char values as C character literals
+        body = s[1:-1]
+        if body.startswith('\\'):
+            esc = {'n': 10, 't': 9, 'r': 13, '0': 0, 'a': 7, 'b': 8, 'f': 12, 'v': 11, '\\': 92, "'": 39, '"': 34, '?': 63}
+            if body[1:] in esc:
+                return esc[body[1:]]
+            try:
+                return int(body[2:], 16) if body[1] == 'x' else int(body[1:], 8)
+            except ValueError:
+                return default
+        return ord(body[0])
+    s = s.rstrip('ulUL')
     try:
         return int(s, 0)
     except ValueError:
